@@ -322,6 +322,44 @@ type MpNamed struct {
 	Sum    Totals
 }
 
+// named scalar types (kinds the statement lists; the types are not the built-in ones)
+type Celsius float64
+type Ratio float32
+type Level int32
+type Count64 int64
+type Big uint64
+type Small uint16
+type Label string
+type Flag bool
+
+type NamedScalars struct {
+	C  Celsius
+	R  Ratio
+	I  Level
+	J  Count64
+	B  Big
+	S  Small
+	L  Label
+	F  Flag
+	Cs []Celsius
+	Ls []Label
+	Fs []Flag
+	Is []Level
+	M  map[Label]Level
+	N  map[string]Flag
+}
+
+type MpF64Str struct{ M map[float64]string }
+
+// RTree / RMap: self-referential list and map types (no struct in between)
+type RTree []RTree
+type RMap map[string]RMap
+type HoldR struct {
+	T RTree
+	M RMap
+	N int32
+}
+
 // GHolder ends a graph with probe references to an early and a late node
 type GHolder struct {
 	Root  *GF
@@ -433,6 +471,7 @@ var Types = []Entry{
 	e(NamedS{}, "custom"), e(NamedHolder{}, "custom"), e(NamedListHolder{}, "custom", "custom-slice"), e(NamedMapHolder{}, "custom", "custom-map"), e(MapThenLists{}, "custom", "custom-map", "slice"), e(PadThen{}, "scalars"),
 	e(Uni{}, "scalars", "unicode-fields"), e(NamedNode{}, "recursive", "custom"), e(MpStructKey{}, "map", "struct-key"), e(MpStrAny{}, "map", "iface"),
 	e(SlMapSl{}, "slice", "slice-of-map"), e(SlMapPtr{}, "slice", "slice-of-map", "recursive"), e(MpMpPtr{}, "map", "recursive"), e(MpNamed{}, "map", "custom", "custom-map"),
+	e(HoldR{}, "slice", "map", "self-referential-container"), e(NamedScalars{}, "scalars", "named-scalars", "slice", "map"),
 	e(DigestHolder{}, "slice", "named-bytes"), e(StampedHolder{}, "embedded", "embedded-time"), e(PtrMap{}, "map", "ptr-map"),
 	e(SlBool{}, "slice"), e(SlInt{}, "slice"), e(SlInt8{}, "slice"), e(SlInt16{}, "slice"), e(SlInt32{}, "slice"), e(SlInt64{}, "slice"),
 	e(SlUint{}, "slice"), e(SlUint16{}, "slice"), e(SlUint32{}, "slice"), e(SlUint64{}, "slice"),
